@@ -142,10 +142,7 @@ Proof. reflexivity. Qed.
 
 Lemma zero_struct_eq fields tagged :
   zero (TStruct fields tagged) = VStruct (map zero fields) (zeros_of tagged).
-Proof.
-  cbn [zero]. f_equal.
-  induction fields as [|x r IH]; [reflexivity|]. cbn [map]. rewrite <- IH. reflexivity.
-Qed.
+Proof. reflexivity. Qed.
 
 (* named versions of the local fixpoints of wfb / canon / alloc_of *)
 Definition wf_list (W : value -> bool) : list value -> bool :=
@@ -234,7 +231,7 @@ Definition ok_tags (flex : bool) : list (Z * ty) -> bool :=
   fix go (l : list (Z * ty)) : bool :=
     match l with
     | [] => true
-    | (i, x) :: r => (if is_marker x then Z.eqb i (-1) else (0 <=? i)%Z) && schema_ok flex x && go r
+    | (i, x) :: r => (if is_marker x then Z.eqb i (-1) else (0 <=? i)%Z && (i <? ZM31)%Z) && schema_ok flex x && go r
     end.
 Lemma schema_ok_struct_eq flex fields tagged :
   schema_ok flex (TStruct fields tagged) =
